@@ -50,6 +50,7 @@ void harness(void)
     if (CASE(MODE) == 1) { lemma(cfg); WITNESS(); return; }
 
     int n; const row_t* T = table_of(cfg, &n);
+    CHECK(vf_b_config() == cfg, "C02: harness runs against the configuration of its case");
 
     uint8_t* in = vf_alloc(len);
     in_bytes(in, len);
@@ -65,21 +66,28 @@ void harness(void)
     /* reference: the matching rows of the range */
     uint8_t m[T_MAXROWS];
     int first = NONE;
-    for (int i = n - 1; i >= 0; --i) { m[i] = (uint8_t)in_range_match(&T[i], opc, start, end, t); if (m[i]) first = i; }
+    for (int i = n - 1; i >= 0; --i) { m[i] = (uint8_t)(start != 0 && in_range_match(&T[i], opc, start, end, t)); if (m[i]) first = i; }   /* start 0 is no valid range */
 
-    /* known findings (see known_findings.d/C02.json); regions are computed from the request and the table only */
-    int skip_region = 0;   /* a later match of the first match's shape follows a match of a different shape */
+    /* known findings (see known_findings.d/C02.json); the regions are computed from the request and the table only.
+       skip_region: after the first match, c matches of its shape (same UUID format / same value length) follow, then a
+       match of another shape, then again one of the first shape - and the c+2 entries of the first shape fit the MTU */
+    int skip_region = 0;
     if (first != NONE) {
-        int other = 0;
+        const unsigned cap = opc == 0x08 ? mtu - 4 : mtu - 6;
+        const unsigned es = opc == 0x04 ? (T[first].type16 != 0 ? 4u : 18u)
+                                        : (opc == 0x08 ? 2u : 4u) + (T[first].vlen < cap ? T[first].vlen : cap);
+        int other = 0; unsigned same = 1;
         for (int i = 0; i < n; ++i) {
             if (i <= first || !m[i]) continue;
             if (!same_shape(&T[first], &T[i], opc, mtu)) other = 1;
-            else if (other) skip_region = 1;
+            else if (!other) ++same;
+            else if (2 + (same + 1) * es <= mtu) skip_region = 1;
         }
     }
     VF_KNOWN_FINDING(c02_find_info_skips_other_format, opc == 0x04 && skip_region);
     VF_KNOWN_FINDING(c02_read_by_type_skips_other_length, opc == 0x08 && skip_region);
     VF_KNOWN_FINDING(c02_read_by_type_128bit_never_matches, opc == 0x08 && !t.is16 && first != NONE);
+    VF_KNOWN_FINDING(c02_group_type_128bit_encoding, opc == 0x10 && len == 21 && t.is16 && t.u16 == 0x2800 && first != NONE);
 
     uint8_t* out = vf_alloc(mtu);
     size_t os = mtu;
